@@ -317,11 +317,30 @@ pub(crate) const BUFFER_SIZE: usize = 256;
 #[cfg(not(zlink_verif_small))]
 const MAX_BUFFER_SIZE: usize = 100 * 1024 * 1024; // Don't allow buffers over 100MB.
 
-// Verification hook: small-constant build of the same buffer code (see /verif/DESIGN.md).
+// Verification hook: small-constant build of the same buffer code (see /verif/DESIGN.md). The
+// two values default to 8 / 32 and can be chosen at build time through the environment.
 #[cfg(zlink_verif_small)]
-pub(crate) const BUFFER_SIZE: usize = 8;
+pub(crate) const BUFFER_SIZE: usize = verif_const(option_env!("ZLINK_VERIF_STEP"), 8);
 #[cfg(zlink_verif_small)]
-const MAX_BUFFER_SIZE: usize = 32;
+const MAX_BUFFER_SIZE: usize = verif_const(option_env!("ZLINK_VERIF_MAX"), 32);
+
+#[cfg(zlink_verif_small)]
+const fn verif_const(text: Option<&str>, default: usize) -> usize {
+    match text {
+        None => default,
+        Some(t) => {
+            let b = t.as_bytes();
+            let mut v = 0;
+            let mut i = 0;
+            while i < b.len() {
+                assert!(b[i].is_ascii_digit());
+                v = v * 10 + (b[i] - b'0') as usize;
+                i += 1;
+            }
+            v
+        }
+    }
+}
 
 /// Verification hook: the buffer constants this build was compiled with.
 #[cfg(zlink_verif)]
